@@ -314,3 +314,36 @@ Example C06_ex_newick_lf_name :
   Newick.decode C06_nw_o (crlf (newick_file C06_nw_o [t])) TEOF
   = Ok [Rec (Newick.Node [120; 13; 10; 121] (bs "0") [])].
 Proof. vm_compute. reflexivity. Qed.
+
+(* ---- the same, for the readers as translated from the Go source ---------------------------------------
+   The translated Reader of fasta reads a CR LF file back as the records; the translated readers of
+   bed and sam yield the same items for the CR LF and the LF version of a file, whichever way the
+   stream ends.  (The chunking of the reads is below bufio and not visible to the translated code:
+   its input is the byte stream, GoSem.go_stream.) *)
+From Bio.gen Require ImpGen.
+From Bio.Model Require GoSem.
+From Bio.Proofs Require ImpProofsJ ImpProofsT.
+
+Theorem C06_crlf_fasta_is_source : forall rs fuel, Forall FastaSpec.fa_ok rs ->
+  (length (crlf (fasta_file rs)) + 2 < fuel)%nat ->
+  ImpGen.imp_fastard_Reader fuel (GoSem.Stream (crlf (fasta_file rs)) 1%Z None)
+  = GoSem.Ret (GoSem.Stream [] 1%Z None, map (ImpProofsJ.fa_item TEOF) (map Rec rs)).
+Proof. exact ImpProofsT.fasta_crlf_src. Qed.
+Print Assumptions C06_crlf_fasta_is_source.
+
+Theorem C06_crlf_bed_is_source : forall bs w t fuel fuel', Forall BedSpec.bed_ok bs -> bed_file bs = Ok w ->
+  (length (crlf w) + 2 < fuel)%nat -> (length w + 2 < fuel')%nat ->
+  exists st st' items,
+    ImpGen.imp_bed_Reader fuel (GoSem.Stream (crlf w) (ImpProofsJ.term_code t) None) = GoSem.Ret (st, items) /\
+    ImpGen.imp_bed_Reader fuel' (GoSem.Stream w (ImpProofsJ.term_code t) None) = GoSem.Ret (st', items).
+Proof. exact ImpProofsT.bed_crlf_src. Qed.
+Print Assumptions C06_crlf_bed_is_source.
+
+Theorem C06_crlf_sam_is_source : forall o hs rs t fuel fuel',
+  Forall SamSpec.header_ok hs -> Forall (SamSpec.sam_ok o) rs ->
+  (length (crlf (sam_file o hs rs)) + 1 < fuel)%nat -> (length (sam_file o hs rs) + 1 < fuel')%nat ->
+  exists st st' items,
+    ImpGen.imp_samrd_ReaderHeader fuel o (GoSem.Stream (crlf (sam_file o hs rs)) (ImpProofsJ.term_code t) None) = GoSem.Ret (st, items) /\
+    ImpGen.imp_samrd_ReaderHeader fuel' o (GoSem.Stream (sam_file o hs rs) (ImpProofsJ.term_code t) None) = GoSem.Ret (st', items).
+Proof. exact ImpProofsT.sam_crlf_src. Qed.
+Print Assumptions C06_crlf_sam_is_source.
